@@ -427,6 +427,19 @@ pub fn medium_inputs(tier: &str) -> Vec<Built> {
     v
 }
 
+/// the near-equal-weight inputs of `medium_inputs` scaled by 2^53 (exact): whole numbers 2^53, 2^53+2, 2^53+4,
+/// whose sums of three are rounded - "integers" for which addition is still order-dependent
+pub fn big_whole_inputs(tier: &str) -> Vec<Built> {
+    medium_inputs(tier)
+        .into_iter()
+        .filter(|b| b.case.starts_with("custom:gnpulp"))
+        .map(|b| {
+            let es: Vec<(usize, usize, f64)> = b.edges.iter().map(|e| (e.0, e.1, e.2 * 2f64.powi(53))).collect();
+            build_custom(b.kind, b.n, &es, &b.case.replace("custom:gnpulp", "gnpbig"))
+        })
+        .collect()
+}
+
 /// Newman modularity in f64 for graphs beyond 32 nodes (integer weights, so sums are exact)
 fn newman_q(edges: &[(usize, usize, f64)], directed: bool, comm_of: &[usize], ncomm: usize, weighted: bool, gamma: f64) -> f64 {
     let w = |e: &(usize, usize, f64)| if weighted { e.2 } else { 1.0 };
